@@ -1,11 +1,11 @@
 package props
 
 import (
-	"reflect"
 	"bytes"
 	"encoding/binary"
 	"fmt"
 	"net"
+	"reflect"
 	"sort"
 	"strings"
 	"testing"
